@@ -237,7 +237,7 @@ def denull(x):
 
 def in_tree(rel):
     # the extra duplicate groups r/h<i>/{p,q} only keep the other worker threads busy: they are not part of the modelled world
-    if re.match(r"r/h\d+(/|$)", rel):
+    if re.search(r"(^|/)r/h\d+(/|$)", rel):          # also where `move` puts them under the target directory
         return False
     return rel in ("r", "T") or rel.startswith("r/") or rel.startswith("T/")
 
